@@ -81,13 +81,16 @@ def run(ctx):
             if r["ok"]:
                 paid |= seen
     cov["resubmitted"] = dup
+    cov["creator_upper_ok"] = sum(1 for r in rows if r["ev"] == "pay" and r.get("pu") and r["ok"])
+    cov["provider_upper_relays"] = sum(1 for r in rows for x in r["rs"] if x.get("pfu"))
     ctx.cov["driver"] = cov
     ctx.cov["distinct_nontrivial"] = len({vlib.json.dumps(b) for b, ch in zip(behs, vlib.split_traces(rows))
                                           if sum(1 for r in ch if r["ev"] == "pay" and r["ok"]) >= 1 and
                                           sum(1 for r in ch if r["ev"] == "pay" and not r["ok"]) >= 1})
     ctx.cov["rule"] = ("behaviours = TLC -simulate runs of Payments.tla GenNext profile c03 (10 steps); non-trivial = at least one accepted "
                        "and one rejected payment transaction; distinct by full action list")
-    if cov["tx_ok"] < 20 or cov["relays_acc"] < 25 or dup < 10 or cov["hard"] < 3 or cov["soft"] < 10 or cov["expired_mem"] < 3:
+    if (cov["tx_ok"] < 20 or cov["relays_acc"] < 25 or dup < 10 or cov["hard"] < 3 or cov["soft"] < 10 or cov["expired_mem"] < 3
+            or cov["creator_upper_ok"] < 3 or cov["provider_upper_relays"] < 3):
         raise vlib.Infra("vacuous coverage: %s" % cov)
     _pay.note_conf(ctx, tpath, "c03_conf", len(rows))
     ctx.assumptions += _pay.ASSUMPTIONS
